@@ -388,6 +388,7 @@ func runWorker(id, tier string, i, n int, out string) int {
 			ck.Run(c)
 			if len(ck.Flows) > 0 {
 				RunFlows(c, ck.Flows...)
+				RunFlowsConcurrent(c, ck.Flows...)
 			}
 			for _, s := range WBCaps() {
 				c.Cap(s)
